@@ -384,7 +384,12 @@ func runCrash(prop, tier, replay string) {
 						defer wg.Done()
 						defer func() { <-sem }()
 						sp := specs[si]
+						// every other crash directory carries characters that are special to glob patterns,
+						// regular expressions, URLs and shells: a data directory is an arbitrary path
 						dk := filepath.Join(r.Dir, fmt.Sprintf("crash-%s-%d", label, si))
+						if si%2 == 1 {
+							dk = filepath.Join(r.Dir, fmt.Sprintf("crash [%s] %d%%+#&(x)", label, si))
+						}
 						defer os.RemoveAll(dk)
 						if err := copyDir(d0, dk); err != nil {
 							r.Inconclusive("copy: " + err.Error())
@@ -456,6 +461,11 @@ func runCrash(prop, tier, replay string) {
 								r.Violation(sig, fmt.Sprintf("after SIGKILL at %s during %s and restart: %v %s", point, op, errs, snap.Err), w)
 							} else if outcome == "other" {
 								r.Violation(fmt.Sprintf("partial-state-after-crash:%s:%s", cc.name, strings.SplitN(point, "#", 2)[0]), fmt.Sprintf("after SIGKILL at %s during %s the state is neither the pre- nor the post-state: vs pre: %s | vs post: %s", point, op, dPre, dPost), w)
+							} else if miss := missingReferencedParts(ctx, sk); len(miss) > 0 {
+								// the API state equals the pre- or post-state, but rows of it (objects or pending
+								// uploads - the latter are not readable through the API until completed) name part
+								// data that is gone: the metadata half of the operation survived without its data half
+								r.Violation(fmt.Sprintf("referenced-part-missing-after-crash:%s:%s", cc.name, strings.SplitN(point, "#", 2)[0]), fmt.Sprintf("after SIGKILL at %s during %s and restart the state equals the %s, but %d part row(s) name a part their store no longer holds: %s", point, op, outcome, len(miss), miss[0]), w)
 							}
 						}
 						// life goes on: a write, then reclamation (C09 view)
